@@ -200,6 +200,28 @@ def run_freq(ctx, spec):
             cmpv(ctx, 'FrequencyCount', [int(v) for v in got],
                  mb.frequency_count(seq, length, m2, True),
                  ('<%d bits>' % length, length, m2, True))
+  # concentrated tallies: strings in which one window value occurs 2^16 times
+  # and more at every stride (constant, period 2, period 4, one stray bit) -
+  # a narrow intermediate counter wraps there and nowhere else
+  length = [2 ** 18, 2 ** 18 + 5, 2 ** 19 + 3, 2 ** 20 + 1, 2 ** 18 + 8,
+            2 ** 18 + 4, 2 ** 19, 2 ** 18 + 1][spec['part']]
+  full = (1 << length) - 1
+  conc = [0, full, full // 3, full // 15 * 5, 1 << (length // 2),
+          full ^ (1 << (length // 3))]
+  for m in (1, 2, 3, 5, 8):
+    if not ctx.want('conc/%d/%d' % (m, length)):
+      continue
+    for seq in conc:
+      for wrap in (True, False):
+        got = call(ctx, 'FrequencyCount', u.FrequencyCount, seq, length, m,
+                   wrap)
+        if got == 'RAISED':
+          continue
+        ctx.count('freq_concentrated')
+        ctx.maxc('freq_max_single_count', max(int(v) for v in got))
+        cmpv(ctx, 'FrequencyCount', [int(v) for v in got],
+             mb.frequency_count(seq, length, m, wrap),
+             ('<%d bits, concentrated>' % length, length, m, wrap))
   try:
     ctx.sample({'fn': 'FrequencyCount', 'm': m, 'length': length,
                 'threshold': '50*2^m = %d' % (50 * 2 ** m)})
